@@ -39,7 +39,6 @@ func (rs *RecordSet) readFromVersion2(d *decoder) error {
 
 	// unused
 	_ = lastOffsetDelta
-	_ = maxTimestamp
 
 	if compression := Attributes(attributes).Compression(); compression != 0 {
 		codec := compression.Codec()
@@ -108,6 +107,9 @@ func (rs *RecordSet) readFromVersion2(d *decoder) error {
 
 		r.offset = baseOffset + offsetDelta
 		r.timestamp = firstTimestamp + timestampDelta
+		if Attributes(attributes)&logAppendTime != 0 {
+			r.timestamp = maxTimestamp
+		}
 
 		keyLength := dec.readVarInt()
 		keyOffset := int64(recordsLength - dec.remain)
